@@ -33,7 +33,7 @@ CHECKS = {
         "processors and shuffled node lists; outcomes, invocation multisets, error identity (one and two injected failures) and "
         "same-step isolation are compared. Exploration over schedules with exhaustive sub-spaces for small steps.",
         "DESIGN.md section 8, C02",
-        "Known finding F-C02a (re-run sibling overwrites a sync partial value) is listed in known_findings.json.",
+        "Known findings F-C02a (re-run sibling overwrites a sync partial value) and the residual of F-C02c (a plain reader of a name that sibling nested graphs bind differently follows the node order) are listed in known_findings.json.",
     ),
     "C03": (
         "exploration",
@@ -121,7 +121,7 @@ CHECKS = {
         "stream is checked against the span-tree grammar, RunEnd status against what the caller saw, shutdown count/position, and "
         "NodeStart counts against function invocations + cache hits.",
         "DESIGN.md section 8, C12",
-        "PAUSED calls are not judged.",
+        "PAUSED calls are not judged. Known finding F-C12d (a FAILED run whose nested sibling paused in the failing step keeps that sibling's spans open) is listed in known_findings.json.",
     ),
     "C13": (
         "fault_enumeration",
@@ -215,7 +215,7 @@ CHECKS = {
         "parsed and checked the same way; to_flat_graph() is compared with the recursive walk incl. the inner edges of every "
         "instance.",
         "DESIGN.md section 8, C20",
-        "Six renderer mechanisms that violate faithfulness on the unchanged tree are listed as known findings by mechanism key; layout/styling/labels are not judged.",
+        "Eight renderer mechanisms that violate faithfulness or self-consistency on the unchanged tree (the six of DESIGN.md F-C20a..f, shadowed private names in separate-outputs mode, diagram ids glued from names that collide) are listed as known findings by mechanism key; layout/styling/labels are not judged.",
     ),
 }
 
